@@ -18,7 +18,8 @@ REPO = os.environ.get("VERIF_REPO", "/repo")
 SPECS = os.path.join(VERIF, "specs")
 HARNESS_SRC = os.path.join(VERIF, "harness")
 WORK = os.path.join(VERIF, "work")
-EVIDENCE = os.path.join(VERIF, "evidence")
+# runs against a scratch checkout (mutation testing, VERIF_REPO) must not overwrite the evidence of /repo
+EVIDENCE = os.path.join(VERIF, "evidence") if os.path.realpath(REPO) == "/repo" else os.path.join(WORK, "evidence_scratch")
 
 
 def _shadow_harness():
